@@ -4,13 +4,73 @@ from .. import families as F
 HI_MEM = [{'mem_type': 'RAM', 'beginning': 0, 'end': 256}, {'mem_type': 'RAM', 'beginning': 0xFFFFFF00, 'end': 0x100000000}]
 
 
+def grid_task(task):
+    """spec -> code: the scenarios TLC enumerated in MC_LS (load/store word, instruction address, base and offset register
+    values), executed by emulate_cycle() with a real fetch; RAM image and registers exactly as in MC_LS!St"""
+    import random
+    from .. import campaign as C
+    g = C.Group(task['name'], arch_version=7, memory_list=HI_MEM)
+    for sc in task['items']:
+        st = g.fresh()
+        thumb = '_t' in sc['k']
+        C.randomize(st, random.Random(0), mode=19, thumb=thumb, pc=0)
+        for r in st['R']:
+            st['R'][r] = [0, 96]
+        st['R']['PC'] = sc['ia']
+        st['R']['R1usr'], st['R']['R2usr'], st['R']['SPsvc'] = sc['rn'], sc['rm'], sc['rn']
+        st['R']['R0usr'], st['R']['R4usr'], st['R']['R5usr'] = [23130, 42405], [4660, 22136], [39612, 57072]
+        st['cpsr'] = [8192, (32 if thumb else 0) + 19]
+        st['sys']['SCTLR'] = [64, 0]
+        for d in (0, 1):
+            mem = st['mem']['base'][d]
+            for j in range(len(mem)):
+                mem[j] = (j * 7 + 3 + 101 * (d + 1)) % 256
+        if sc['k'] == 'ldrpc_a1':
+            v = C.unlimbs(sc['rm'])
+            st['mem']['base'][0][128:132] = [(v >> (8 * i)) & 0xFF for i in range(4)]
+        w = (sc['w'][0] << 16) | sc['w'][1]
+        ia = C.unlimbs(sc['ia'])
+        if ia >= 0xFFFFFF00:
+            C.put_instr(st, ia - 0xFFFFFF00, w, thumb, dev=1)
+        else:
+            C.put_instr(st, ia, w, thumb)
+        g.add(st, {'n': 'Step'}, meta={'gen': 'mc_ls:' + sc['k'], 'word': w, 'thumb': thumb})
+    return [g]
+
+
+def _dispatch(t):
+    return t[0](t[1])
+
+
 def run(ctx):
+    from .. import campaign as C
+    from .. import tlc
     ctx.mc('MC_Cond', workers=4)
+    # the load/store semantics of the specification against the property's wording (address = base +/- offset mod 2^32 or the
+    # base for post-indexing, exactly `size` little-endian bytes, zero/sign extension, write-back, load to PC, frame) on the
+    # encoding x addressing mode x offset-basis x base-register grid; then the same scenarios are executed by the real code
+    full = 'FALSE' if ctx.quick else 'TRUE'
+    # one run: the invariants are checked and (GEN) every scenario is printed
+    rs = ctx.mc('MC_LS', constants={'GEN': 'TRUE', 'FULL': full}, coverage=False, timeout=3000)
+    grid = [x for x in tlc.printed_json(rs['out']) if isinstance(x, dict) and 'rn' in x]
+    if len(grid) < 10000:
+        raise tlc.MachineryError('MC_LS printed only %d scenarios' % len(grid))
+    grid.sort(key=repr)
+    ggroups = C.parallel(_dispatch, [(grid_task, dict(name='mcls-%d' % i, items=grid[i::16])) for i in range(16)])
+    ctx.behaviours += len(grid)
+    ctx.extra['mc_ls_scenarios_replayed'] = len(grid)
     n = 6000 if ctx.quick else 150000
     cfgs = [('v6', dict(arch_version=6)), ('v7', dict(arch_version=7)),
             ('v6hi', dict(arch_version=6, memory_list=HI_MEM)), ('v7hi', dict(arch_version=7, memory_list=HI_MEM))]
-    F.run_family(ctx, 'ls', n, {'endian': True, 'align_ctl': True, 'data_ptrs': True, 'hi': True}, F.exact_filter, configs=cfgs)
-    ctx.extra['rule'] = ('random LDR/STR-family words (ARM word/byte imm+reg incl. T variants and literal, extra '
+    res = F.run_family(ctx, 'ls', n, {'endian': True, 'align_ctl': True, 'data_ptrs': True, 'hi': True}, F.exact_filter, configs=cfgs,
+                       extra_groups=ggroups)
+    notexact = sum(1 for g, e, v in res if g.name.startswith('mcls-') and not v['path'].startswith('exact:'))
+    if notexact:
+        raise tlc.MachineryError('%d MC_LS scenarios were not judged exactly' % notexact)
+    ctx.extra['rule'] = ('MC_LS (TLC): load/store encodings x offset / pre- / post-indexed x U x affine basis of the offset field x shifted '
+                         'register offsets x bases in RAM, unaligned, at 0xFFFFFF80 and 0xFFFFFFFC (wrap): address, bytes, extension, '
+                         'write-back, PC load and frame against the wording; every scenario then executed by emulate_cycle(); plus '
+                         'random LDR/STR-family words (ARM word/byte imm+reg incl. T variants and literal, extra '
                          'halfword/signed/dual, 16-bit Thumb, 32-bit Thumb imm12/imm8/reg/dual/TBB) x random P/U/W, '
                          'registers (incl. SP, PC, Rn==Rt filtered to envelope when UNPREDICTABLE), base addresses in RAM, '
                          'at 0xFFFFFFxx and wrapping, alignment 0..3, CPSR.E, SCTLR.A/U, arch 6 and 7; full post-state '
